@@ -435,9 +435,7 @@ func (s *sim) sideBranch(t int) {
 		return
 	}
 	v := s.versions[s.rng.IntN(len(s.versions))]
-	if v.clone {
-		return // clones are for reading only
-	}
+	// (clones of open transactions are Tree values too: transactions derived from them must leave them and everything else intact)
 	what := fmt.Sprintf("t%d side(%s)", t, v.name)
 	before := s.closedSet()
 	txn := v.tree.Txn()
